@@ -35,7 +35,7 @@ _THIS = os.path.abspath(__file__).replace(".pyc", ".py")
 
 class LineScheduler:
     def __init__(self, files, rng, strategy="random", p=0.35, depth=3, steal_after=0.05, record=None,
-                 only_funcs=None, tag_of=None, max_points=200000):
+                 only_funcs=None, tag_of=None, max_points=200000, rendezvous=0, rendezvous_timeout=2.0):
         self.files = {os.path.abspath(f) for f in files}
         assert _THIS not in self.files, "the scheduler must not trace its own module"
         self.rng = rng
@@ -58,6 +58,11 @@ class LineScheduler:
         self.low = 0
         self.enabled = False
         self._old = None
+        # optional: nobody passes its FIRST yield point before `rendezvous` threads have reached theirs (short pieces of
+        # traced code would otherwise be over before a second thread arrives, and nothing could be interleaved)
+        self.rendezvous = rendezvous
+        self.rendezvous_timeout = rendezvous_timeout
+        self.arrived = set()
 
     # ---- installation ---------------------------------------------------------------------------
     def install(self):
@@ -144,7 +149,25 @@ class LineScheduler:
                     self.current = th
                     return
 
+    def _arrive(self, th):
+        """first yield point of a thread under `rendezvous`: the first arriver takes the baton and waits until the other
+        `rendezvous - 1` threads are parked at their first yield point (they park in `_yield_point`, not holding the baton)"""
+        with self.lock:
+            self.arrived.add(th)
+            if self.current is None:
+                self.current = th
+            holder = self.current is th
+        if holder:
+            deadline = time.time() + self.rendezvous_timeout
+            while self.enabled and time.time() < deadline:
+                with self.lock:
+                    if len(self.parked) >= self.rendezvous - 1:
+                        break
+                time.sleep(0.0002)
+
     def _yield_point(self, th, frame):
+        if self.rendezvous and th not in self.arrived:
+            self._arrive(th)
         with self.lock:
             self.points += 1
             if self.points > self.max_points:
